@@ -435,34 +435,41 @@ impl FsCommand {
                 let path = file.path.quote();
                 result.push(format!("rm {path}"));
             }
+            // The original is moved away first and removed only after the link has been created.
+            // If creating the link fails, the original is moved back, as `execute` does.
             FsCommand::SoftLink { target, link, .. } => {
-                let tmp = Self::temp_file(&link.path);
+                let tmp = Self::temp_file(&link.path).quote();
                 let target = target.path.quote();
                 let link = link.path.quote();
-                result.push(format!("mv {} {}", link, tmp.quote()));
-                result.push(format!("ln -s {target} {link}"));
-                result.push(format!("rm {}", tmp.quote()));
+                result.push(format!("mv {link} {tmp}"));
+                result.push(format!(
+                    "if ln -s {target} {link}; then rm {tmp}; else mv {tmp} {link}; fi"
+                ));
             }
             FsCommand::HardLink { target, link, .. } => {
-                let tmp = Self::temp_file(&link.path);
+                let tmp = Self::temp_file(&link.path).quote();
                 let target = target.path.quote();
                 let link = link.path.quote();
-                result.push(format!("mv {} {}", link, tmp.quote()));
-                result.push(format!("ln {target} {link}"));
-                result.push(format!("rm {}", tmp.quote()));
+                result.push(format!("mv {link} {tmp}"));
+                result.push(format!(
+                    "if ln {target} {link}; then rm {tmp}; else mv {tmp} {link}; fi"
+                ));
             }
             FsCommand::RefLink { target, link, .. } => {
-                let tmp = Self::temp_file(&link.path);
+                let tmp = Self::temp_file(&link.path).quote();
                 let target = target.path.quote();
                 let link = link.path.quote();
                 // Not really what happens on Linux, there the `mv` is also a reflink.
-                result.push(format!("mv {} {}", link, tmp.quote()));
+                result.push(format!("mv {link} {tmp}"));
                 if cfg!(target_os = "macos") {
-                    result.push(format!("cp -c {target} {link}"));
+                    result.push(format!(
+                        "if cp -c {target} {link}; then rm {tmp}; else mv {tmp} {link}; fi"
+                    ));
                 } else {
-                    result.push(format!("cp --reflink=always {target} {link}"));
+                    result.push(format!(
+                        "if cp --reflink=always {target} {link}; then rm {tmp}; else mv {tmp} {link}; fi"
+                    ));
                 };
-                result.push(format!("rm {}", tmp.quote()));
             }
             FsCommand::Move {
                 source,
